@@ -114,7 +114,13 @@ func c11Config(r *vlib.Rand, dir string, forceEmpty bool) c11Cfg {
 		} else if forceEmpty {
 			own = 0
 		}
-		fmt.Fprintf(&b, "%s {\n queue { backend memory }\n pull { path %s\n", rt.Route, rt.Endpoint)
+		// pull routes of the internal channel (job queues without ingress) carry the
+		// same kind of pull block, own tokens included
+		chanPrefix := ""
+		if r.Chance(0.3) {
+			chanPrefix = "internal "
+		}
+		fmt.Fprintf(&b, "%s%s {\n queue { backend memory }\n pull { path %s\n", chanPrefix, rt.Route, rt.Endpoint)
 		for k := 0; k < own; k++ {
 			t := mkTok(fmt.Sprintf("Rtok%d", i))
 			rt.Tokens = append(rt.Tokens, t)
